@@ -932,6 +932,16 @@ class Gen(object):
             if self.free and rnd.random() < 0.5:
                 cand = [list(p) for p, f in leaves]
                 call["free"] = rnd.sample(cand, rnd.randint(1, min(3, len(cand))))
+                sc_l = [(list(p), f) for p, f in leaves if f["kind"] == "scalar"]
+                if len(sc_l) >= 2 and rnd.random() < 0.35:
+                    # two passed fields related through an expression over one of them (a <= b + k): both are variables of the
+                    # call whatever their declaration says - preferably the one inside the expression is NOT declared random
+                    (pa, fa), (pb, fb) = rnd.sample(sc_l, 2)
+                    if fa["rand"] is False and fb["rand"]:
+                        (pa, fa), (pb, fb) = (pb, fb), (pa, fa)
+                    rel = ["bin", rnd.choice(["Le", "Lt", "Ge", "Gt"]), ["f", pa], ["bin", rnd.choice(["Add", "Sub"]), ["f", pb], ["lit", rnd.randint(0, 2)]]]
+                    call["inline"] = [["expr", rel]]
+                    call["free"] = [pa, pb]
             ops.append(call)
         sc["ops"] = ops
         sc["root_cls"] = root["name"]
